@@ -82,6 +82,10 @@ def cl_line_term(eng, n):
     nn = Ge(n, IntVal(0))
     d.ground_axiom("split.cl", Implies(nn, Eq(split(line, StrVal(CL)), smt.SeqLit(smt.STR, [StrVal(""), tail]))))
     d.ground_axiom("strip.cl", Implies(nn, Eq(strip(tail), digits)))
+    # the same facts for the value after the colon (" <n>\r\n") and for the field name
+    d.ground_axiom("strip.cl_value", Implies(nn, Eq(strip(Concat(StrVal(" "), tail)), digits)))
+    d.ground_axiom("strip.cl_name", Eq(strip(StrVal("Content-Length")), StrVal("Content-Length")))
+    d.ground_axiom("lower.cl_name", Eq(d.fun("py_lower", [smt.STR], smt.STR)(StrVal("Content-Length")), StrVal("content-length")))
     d.ground_axiom("int.cl", Implies(nn, And(int_ok(digits), Eq(int_of(digits), n))))
     return line
 
@@ -90,16 +94,23 @@ def sp_cl_line(eng, st, n):
     return V(STR, cl_line_term(eng, n.t))
 
 
-def is_hline_term(t):
+def header_key_term(d, t):
+    """lower(strip(text before the first colon)) — the case-insensitive name of a header field line"""
+    i = smt.IndexOf(t, StrVal(":"), IntVal(0))
+    name = Ite(Ge(i, IntVal(0)), smt.Extract(t, IntVal(0), i), t)
+    return d.fun("py_lower", [smt.STR], smt.STR)(d.fun("py_strip", [smt.STR], smt.STR)(name))
+
+
+def is_hline_term(t, d=None):
     n = Len(t)
+    other = Not(smt.PrefixOf(StrVal(CL), t)) if d is None else Not(Eq(header_key_term(d, t), StrVal("content-length")))
     return And(Gt(n, IntVal(2)), smt.SuffixOf(StrVal("\r\n"), t),
-               Eq(smt.IndexOf(t, StrVal("\n"), IntVal(0)), Sub(n, IntVal(1))),
-               Not(smt.PrefixOf(StrVal(CL), t)))
+               Eq(smt.IndexOf(t, StrVal("\n"), IntVal(0)), Sub(n, IntVal(1))), other)
 
 
 def sp_is_hline(eng, st, s):
     """A header field line other than Content-Length: `name: value\\r\\n`."""
-    return V(BOOL, is_hline_term(s.t))
+    return V(BOOL, is_hline_term(s.t, eng.decls))
 
 
 def sp_all_hlines(eng, st, S):
@@ -144,9 +155,9 @@ def sp_hdr_facts(eng, st, pre, n, post, i):
         allh = d.fun("all_hlines", [SEQS], smt.BOOL)
         pj = Sub(Sub(it, lp), one)
         d.ground_axiom("hlines.pre", Implies(And(allh(pre.t), Le(IntVal(0), it), Lt(it, lp)),
-                                             is_hline_term(At(pre.t, it))))
+                                             is_hline_term(At(pre.t, it), d)))
         d.ground_axiom("hlines.post", Implies(And(allh(post.t), Le(IntVal(0), pj), Lt(pj, lq)),
-                                              is_hline_term(At(post.t, pj))))
+                                              is_hline_term(At(post.t, pj), d)))
     return V(BOOL, smt.TRUE)
 
 
@@ -315,8 +326,8 @@ TRUSTED = [
     "json.dumps(v) is ASCII-only unless ensure_ascii=False (keyword read from the AST); json.loads raises ValueError "
     "or returns the value; io.BufferedReader.read(n) returns exactly n bytes unless the stream ends, whatever the "
     "chunking of the pipe; readline returns through the next LF",
-    "str.split/strip/int on the Content-Length line `Content-Length: <digits>\\r\\n` (ground library facts, "
-    "validated natively for sampled n)",
+    "str.partition/strip/lower/int on the Content-Length line `Content-Length: <digits>\\r\\n` (ground library facts, "
+    "validated natively for sampled n); other spellings of the field name and spacing are covered by the native frame round trip",
     "blen(s) >= len(s) and is_ascii(s) => blen(s) == len(s) (UTF-8)",
 ]
 ASSUMPTIONS = ["header bytes are ASCII (LSP base protocol); the input stream is a sequence of grammatical frames"]
@@ -343,14 +354,23 @@ def _frames_roundtrip():
                     "declared": fields.get(b"Content-Length", b"").decode(), "actual_bytes": len(body)}
         if json.loads(body.decode("utf-8")) != {"jsonrpc": "2.0", "id": 7, "result": p}:
             return {"direction": "write", "payload": p, "problem": "body does not decode to the message"}
+    # the library facts the header contract assumes about str methods
+    for k in (0, 7, 10, 123456):
+        if (" " + str(k) + "\r\n").strip() != str(k) or "Content-Length".strip().lower() != "content-length" \
+                or ("Content-Length: %d\r\n" % k).partition(":") != ("Content-Length", ":", " %d\r\n" % k):
+            return {"direction": "library facts", "n": k}
     # reader side
     def fr(msg, order):
         b = json.dumps(msg, ensure_ascii=False).encode("utf-8")
         cl = b"Content-Length: " + str(len(b)).encode() + b"\r\n"
         ct = b"Content-Type: application/vscode-jsonrpc; charset=utf-8\r\n"
-        hdr = {"cl": cl, "cl_ct": cl + ct, "ct_cl": ct + cl, "ct_cl_x": ct + cl + b"X-Other: 1\r\n"}[order]
+        n = str(len(b)).encode()
+        hdr = {"cl": cl, "cl_ct": cl + ct, "ct_cl": ct + cl, "ct_cl_x": ct + cl + b"X-Other: 1\r\n",
+               # header field names are case insensitive, white space around the value is optional
+               "lower": b"content-length: " + n + b"\r\n", "nospace": b"Content-Length:" + n + b"\r\n" + ct,
+               "upper_spaces": ct + b"CONTENT-LENGTH:   " + n + b"  \r\n"}[order]
         return hdr + b"\r\n" + b
-    for order in ("cl", "cl_ct", "ct_cl", "ct_cl_x"):
+    for order in ("cl", "cl_ct", "ct_cl", "ct_cl_x", "lower", "nospace", "upper_spaces"):
         msgs = [{"jsonrpc": "2.0", "id": i, "method": "m", "params": p} for i, p in enumerate(payloads)]
         data = b"".join(fr(m, order) for m in msgs)
         conn = JSONRPC2Connection(ReadWriter(io.BytesIO(data), io.BytesIO()))
